@@ -110,7 +110,9 @@ type FlowSpec[S any] struct {
 	Entry    S
 	Transfer func(n ast.Node, s S) S
 	Branch   func(cond ast.Expr, truth bool, s S) S // may be nil
-	Join     func(a, b S) S
+	// BlockEntry, if set, is applied to the state when a block is entered (before its nodes).
+	BlockEntry func(b *cfg.Block, s S) S
+	Join       func(a, b S) S
 	Equal    func(a, b S) bool
 }
 
@@ -152,6 +154,9 @@ func runFlow[S any](p *Prog, fn *Fn, spec FlowSpec[S]) *FlowResult[S] {
 			panic("dataflow did not converge in " + fn.Name)
 		}
 		s := r.In[b]
+		if spec.BlockEntry != nil {
+			s = spec.BlockEntry(b, s)
+		}
 		for _, n := range b.Nodes {
 			s = spec.Transfer(n, s)
 		}
@@ -186,7 +191,7 @@ func (r *FlowResult[S]) Before(n ast.Node) (S, bool) {
 		if !r.Seen[b] {
 			continue
 		}
-		s := r.In[b]
+		s := r.blockIn(b)
 		for _, x := range b.Nodes {
 			if x.Pos() <= n.Pos() && n.End() <= x.End() {
 				return s, true
@@ -198,13 +203,30 @@ func (r *FlowResult[S]) Before(n ast.Node) (S, bool) {
 	return zero, false
 }
 
+func (r *FlowResult[S]) blockIn(b *cfg.Block) S {
+	s := r.In[b]
+	if r.spec.BlockEntry != nil {
+		s = r.spec.BlockEntry(b, s)
+	}
+	return s
+}
+
+// BlockOut returns the state at the end of block b.
+func (r *FlowResult[S]) BlockOut(b *cfg.Block) S {
+	s := r.blockIn(b)
+	for _, x := range b.Nodes {
+		s = r.spec.Transfer(x, s)
+	}
+	return s
+}
+
 // After returns the state just after the top-level CFG node containing n.
 func (r *FlowResult[S]) After(n ast.Node) (S, bool) {
 	for _, b := range r.G.Blocks {
 		if !r.Seen[b] {
 			continue
 		}
-		s := r.In[b]
+		s := r.blockIn(b)
 		for _, x := range b.Nodes {
 			s2 := r.spec.Transfer(x, s)
 			if x.Pos() <= n.Pos() && n.End() <= x.End() {
@@ -228,7 +250,7 @@ func (r *FlowResult[S]) Exits() []Exit[S] {
 		if b.Kind == cfg.KindUnreachable && len(b.Nodes) == 0 {
 			continue
 		}
-		s := r.In[b]
+		s := r.blockIn(b)
 		var last ast.Node
 		for i, x := range b.Nodes {
 			last = x
